@@ -510,6 +510,10 @@ func (c *Ctx) evalCallWithArgs(x *ast.CallExpr, s *State, pre []Value) Value {
 			case types.MethodVal:
 				callee = sel.Obj().(*types.Func)
 				base := c.eval(f.X, s)
+				if c.deferRecv != nil && pre != nil {
+					base = c.deferRecv // a deferred method call runs on the receiver it had at the defer statement
+					c.deferRecv = nil
+				}
 				bt := c.typeOf(f.X)
 				recv, recvT = c.methodRecv(s, base, bt, sel, f)
 			case types.FieldVal:
@@ -555,6 +559,9 @@ func (c *Ctx) evalCallWithArgs(x *ast.CallExpr, s *State, pre []Value) Value {
 				c.atArgs[fmt.Sprintf("arg%d", i)] = bound{a, sig.Params().At(i).Type()}
 			}
 		}
+	}
+	if recv != nil && recvT != nil {
+		c.atArgs["recv"] = bound{recv, recvT} // the receiver the method is called on
 	}
 	c.atClauses(s, fmt.Sprintf("call %s#%d", calleeShortName(x), c.callOrd[x]), x.Pos())
 	c.atArgs = nil
